@@ -450,6 +450,17 @@ DIRECTED = [
     ('isar: member named like the constant its neighbour\'s size uses (D195)', '--isar',
      {'a.xml': ISAR % ('<constant name="MAX_ITEMS" value="3"/><struct name="X"><member name="MAX_ITEMS" type="u8"/>'
                        '<member name="items" type="u16"><dimension size="MAX_ITEMS"/></member></struct>')}, 'a.xml', 'reject'),
+    ('isar: member declared after the array whose size uses a constant of its name (D195)', '--isar',
+     {'a.xml': ISAR % ('<constant name="MAX_ITEMS" value="3"/><struct name="X"><member name="items" type="u16"><dimension size="MAX_ITEMS"/></member>'
+                       '<member name="MAX_ITEMS" type="u32"/></struct>')}, 'a.xml', 'reject'),
+    ('isar: array named like the constant its own size uses (D195)', '--isar',
+     {'a.xml': ISAR % ('<constant name="LEN" value="3"/><struct name="X"><member name="LEN" type="u16"><dimension size="LEN"/></member></struct>')}, 'a.xml', 'reject'),
+    ('isar: limited array whose limit uses a constant named like a later member (D195)', '--isar',
+     {'a.xml': ISAR % ('<constant name="ROWS" value="3"/><struct name="G"><member name="n" type="u32"/><member name="cells" type="u16">'
+                       '<dimension size="ROWS" isVariableSize="true" variableSizeFieldName="n"/></member><member name="ROWS" type="u16"/></struct>')}, 'a.xml', 'reject'),
+    ('isar: union arm named like the constant an earlier arm\'s discriminator uses (D195)', '--isar',
+     {'a.xml': ISAR % ('<constant name="KIND_A" value="1"/><union name="U"><member name="a" type="u8" discriminatorValue="KIND_A"/>'
+                       '<member name="KIND_A" type="u16" discriminatorValue="2"/></union>')}, 'a.xml', 'reject'),
     ('isar: constant named part2 used as a size in a struct of several blocks (D195)', '--isar',
      {'a.xml': ISAR % ('<constant name="part2" value="3"/><struct name="X"><member name="a" type="u8"><dimension isVariableSize="true"/></member>'
                        '<member name="g" type="u16"><dimension size="part2"/></member></struct>')}, 'a.xml', 'reject'),
